@@ -18,6 +18,7 @@ type specVal struct {
 	isNil bool
 	tuple []specVal
 	pkg   *types.Package // identifier naming an imported package
+	cell  bool           // a captured variable: t is the address of its cell, reads go through the heap
 }
 
 type specEnv struct {
@@ -39,7 +40,7 @@ func (e *Enc) specEnv(old, cur *State, results []Term) *specEnv {
 		se.binds[p.Name()] = specVal{t: e.vals[p], typ: p.Type()}
 	}
 	for _, fv := range e.fn.FreeVars {
-		se.binds[fv.Name()] = specVal{t: e.vals[fv], typ: fv.Type()}
+		se.binds[fv.Name()] = specVal{t: e.vals[fv], typ: fv.Type(), cell: true}
 	}
 	if results != nil {
 		sig := e.fn.Signature.Results()
@@ -187,6 +188,14 @@ func (se *specEnv) eval(x SExpr) (specVal, error) {
 		if n.Forall {
 			q = "forall"
 		}
+		var names []string
+		for _, v := range n.Vars {
+			names = append(names, ne.binds[v.Name].t.S)
+		}
+		pats := triggerPatterns(body.S, names)
+		if len(pats) > 0 {
+			return specVal{t: Term{fmt.Sprintf("(%s (%s) (! %s %s))", q, strings.Join(decl, " "), body.S, strings.Join(pats, " ")), SBool}}, nil
+		}
 		return specVal{t: Term{fmt.Sprintf("(%s (%s) %s)", q, strings.Join(decl, " "), body.S), SBool}}, nil
 	case *SBin:
 		return se.evalBin(n)
@@ -319,6 +328,12 @@ func (se *specEnv) evalIdent(name string) (specVal, error) {
 		}
 	}
 	if v, ok := se.binds[name]; ok {
+		if v.cell {
+			t := derefType(v.typ)
+			rv := se.e.loadPtr(se.cur, v.t, t)
+			se.typed(rv, t)
+			return specVal{t: rv, typ: t}, nil
+		}
 		return v, nil
 	}
 	if v, ok, err := se.ghost(name); ok {
@@ -504,6 +519,11 @@ func fieldIndex(st *types.Struct, name string) int {
 
 // evalAddr: &x.f  (address of an embedded struct or scalar field; only embedded structs supported)
 func (se *specEnv) evalAddr(x SExpr) (specVal, error) {
+	if id, ok := x.(*SIdent); ok {
+		if v, ok := se.binds[id.Name]; ok && v.cell {
+			return specVal{t: v.t, typ: v.typ}, nil
+		}
+	}
 	v, err := se.eval(x)
 	if err != nil {
 		return specVal{}, err
@@ -698,6 +718,9 @@ func (se *specEnv) modTargets(m ModLoc) ([]modTarget, error) {
 			}
 			return []modTarget{{heap: "G$" + x.Name, sort: srt, whole: true}}, nil
 		}
+		if v, ok := se.binds[x.Name]; ok && v.cell {
+			return se.allOf(specVal{t: v.t, typ: v.typ})
+		}
 		// a pointer parameter: everything it points to
 		v, err := se.eval(x)
 		if err != nil {
@@ -888,4 +911,61 @@ func (se *specEnv) typed(v Term, t types.Type) {
 	}
 	se.e.typedSeen[ra.S] = true
 	se.e.sc.Assert(ra)
+}
+
+// triggerPatterns picks E-matching triggers for a quantified body: the (select A x) terms whose
+// index is exactly a bound variable and whose array does not mention a bound variable deeper than
+// one more select (heap reads). Each becomes an alternative single-term pattern. Only used when a
+// single bound variable is quantified (multi-variable bodies are left to the solver).
+func triggerPatterns(body string, vars []string) []string {
+	if len(vars) != 1 {
+		return nil
+	}
+	v := vars[0]
+	seen := map[string]bool{}
+	var pats []string
+	needle := " " + v + ")"
+	for i := 0; i+len(needle) <= len(body); i++ {
+		if body[i:i+len(needle)] != needle {
+			continue
+		}
+		// find the opening paren of this application
+		end := i + len(needle)
+		depth := 0
+		start := -1
+		for k := end - 1; k >= 0; k-- {
+			switch body[k] {
+			case ')':
+				depth++
+			case '(':
+				depth--
+				if depth == 0 {
+					start = k
+				}
+			}
+			if start >= 0 {
+				break
+			}
+		}
+		if start < 0 {
+			continue
+		}
+		term := body[start:end]
+		if !strings.HasPrefix(term, "(select ") {
+			continue
+		}
+		// the array part must not contain the bound variable
+		arr := term[len("(select ") : len(term)-len(needle)]
+		if strings.Contains(arr, v) {
+			continue
+		}
+		if !seen[term] {
+			seen[term] = true
+			pats = append(pats, ":pattern ("+term+")")
+		}
+	}
+	if len(pats) > 4 {
+		pats = pats[:4]
+	}
+	return pats
 }
